@@ -119,7 +119,7 @@ Obs == [bad |-> bs.bad,
         held |-> IF bs.bad THEN <<>> ELSE [k \in 1..(MaxIdx + 1) |-> HeldView(bs, k - 1)],
         rec |-> IF bs.bad \/ bs.done.ok THEN {} ELSE bs.rec]
 
-OutOf(x, o) == [rets |-> o.rets, evs |-> o.evs, blk |-> BlkJson(x, o.blk),
+OutOf(x, o) == [rets |-> o.rets, evs |-> o.evs, blk |-> BlkJson(x, o.blk), why |-> o.why,
                 \* a reconstructed block is handed to Pool::add_block, which must accept it
                 pool |-> IF o.blk.ok THEN "ok" ELSE "-"]
 
@@ -135,7 +135,7 @@ Setup ==
        /\ sc' = x /\ role' = ro /\ UNCHANGED <<bs, hist>>
        /\ act' = [op |-> "setup", sc |-> x, role |-> ro, blocks |-> Blocks, slot |-> BSlot,
                     parslot |-> ParSlot, maxidx |-> MaxIdx]
-       /\ out' = [rets |-> <<>>, evs |-> <<>>, blk |-> BlkJson(x, NoB), pool |-> "-"]
+       /\ out' = [rets |-> <<>>, evs |-> <<>>, blk |-> BlkJson(x, NoB), why |-> "", pool |-> "-"]
        /\ sid' = Id(x, ro, bs, hist)
 
 DeliverStep ==
